@@ -16,12 +16,20 @@
 //! output is deterministic for a given seed. Policy `fifoadm` is a harness-side cost-bounded FIFO that
 //! evicts at admission, to exercise the victim / evSub / evNote steps.
 //!
-//! Transcript: `#case <id> threads=<n> shards=<S> cap=<c|inf> policy=<p> coop=<0|1> nkeys=<K> strategy=<..>`,
+//! v2: every acquisition of a `HybridMutex`/`HybridRwLock` of the cache is an event line `<tid> acq <role> <kind>`
+//! (`fibre::verif_lock_hook`; roles shard<i> / maint<i> / batch / other); acquisitions of shard<i> / maint<i>
+//! are additional YIELD points (not step boundaries): the worker pauses BEFORE the acquisition and logs the
+//! `acq` line when it is scheduled again. Clock reads are event lines `<tid> clock`. Expiry (ttl / tti /
+//! insertttl / advance) runs on the process-global virtual clock, so cases that use it are serialised by a
+//! global mutex. The observation `m=` is the PHYSICAL resident map (the observer reads with the virtual
+//! clock at 0, so expired-but-uncollected entries stay visible); observer reads produce no event lines.
+//!
+//! Transcript: `#case <id> threads=<n> shards=<S> cap=<c|inf> policy=<p> coop=<0|1> nkeys=<K> ttl=<ns|0> tti=<ns|0> track=<0|1> strategy=<..>`,
 //! `P <tid> <ops ; ...>`, `S <decisions>`, step lines `<tid> <step> [args] => <result> [ret=..] [cur=<u64> m=<k:v,..|->]`,
-//! `X <status>`, `!monitor` lines, `#end`.
+//! event lines `<tid> acq <role> <kind>` / `<tid> clock`, `X <status>`, `!monitor` lines, `#end`.
 use fibre_cache::policy::{AdmissionDecision, CachePolicy};
 use fibre_cache::verif_sched::{self, SchedHook};
-use fibre_cache::{Cache, CacheBuilder, EvictionListener, EvictionReason};
+use fibre_cache::{verif_clock, Cache, CacheBuilder, EvictionListener, EvictionReason};
 use std::collections::{BTreeMap, BTreeSet, HashMap};
 use std::hash::{BuildHasher, Hasher};
 use std::sync::atomic::{AtomicUsize, Ordering};
@@ -138,10 +146,14 @@ struct Th {
   maint_sh: usize,
   /// at "compute:retry" and the cache state cannot have changed since the failed attempt
   stale: bool,
+  /// paused BEFORE this lock acquisition (role, kind); a yield point that is not a step boundary
+  pending_acq: Option<(String, &'static str)>,
+  /// shard locks acquired since the last arrival (only `clear` keeps shard locks across a yield)
+  held_shards: Vec<usize>,
 }
 
 type Obs = (u64, BTreeMap<u64, u64>);
-struct Line { text: String, obs: Option<Obs>, quiescent: bool }
+struct Line { text: String, obs: Option<Obs>, quiescent: bool, /** a model step (not a call / acq / clock event line) */ step: bool }
 
 struct Inner {
   th: Vec<Th>,
@@ -172,16 +184,44 @@ struct Inner {
   done: bool,
   cache: Arc<C>,
   nkeys: u64,
+  /// lock address -> role
+  roles: HashMap<usize, String>,
+  /// the decision just completed ended at a lock-acquisition yield (not at a step point)
+  ended_at_lock_yield: bool,
+  /// the case uses the virtual clock (holds the global expiry mutex)
+  expiry: bool,
 }
 
 #[derive(Clone, Copy)]
 enum Ret { Opt(Option<u64>), Unit, Val(u64), Cmp(&'static str) }
 
 impl Inner {
-  fn push(&mut self, t: usize, s: String) { self.log.push(Line { text: format!("{t} {s}"), obs: None, quiescent: false }); }
+  fn push(&mut self, t: usize, s: String) {
+    let step = !(s.starts_with("call ") || s.starts_with("acq ") || s == "clock");
+    self.log.push(Line { text: format!("{t} {s}"), obs: None, quiescent: false, step });
+  }
+
+  fn role_index(role: &str, prefix: &str) -> Option<usize> { role.strip_prefix(prefix).and_then(|x| x.parse().ok()) }
+
+  /// would the acquisition thread `i` is paused before block right now?
+  fn blocked(&self, i: usize) -> bool {
+    match &self.th[i].pending_acq {
+      Some((role, kind)) => {
+        if let (Some(sh), "l") = (Self::role_index(role, "maint"), *kind) { matches!(self.mlock.get(sh), Some(Some(h)) if *h != i) }
+        else if let (Some(sh), "r" | "w") = (Self::role_index(role, "shard"), *kind) { self.th.iter().enumerate().any(|(j, t)| j != i && t.held_shards.contains(&sh)) }
+        else { false }
+      }
+      None => false,
+    }
+  }
 
   /// policy-log entries made since the running thread was scheduled
   fn plog_since(&self) -> Vec<String> { let p = self.plog.lock().unwrap(); p[self.plog_mark.min(p.len())..].to_vec() }
+
+  /// keys of the `on_remove` policy calls made since the running thread was scheduled, in call order
+  fn removed_keys_since(&self) -> Vec<u64> {
+    self.plog_since().iter().filter_map(|e| e.strip_prefix("rm:")).filter_map(|r| r.split(':').nth(1).and_then(|k| k.parse().ok())).collect()
+  }
 
   fn all_settled(&self) -> bool { self.baton.is_none() && self.th.iter().all(|t| matches!(t.status, Status::AtPoint | Status::Finished)) }
 
@@ -193,25 +233,28 @@ impl Inner {
     if self.done { return; }
     if let Some(p) = self.picked {
       let logged_from = self.log_mark;
-      if self.log.len() > logged_from {
-        let o = observe(&self.cache, self.nkeys);
-        let quiescent = self.th.iter().all(|t| t.status == Status::Finished || (t.status == Status::AtPoint && (t.last == "op" || t.last == "start")));
+      // the observation goes to the last STEP line of the decision (none: the decision only logged events)
+      if let Some(li) = (logged_from..self.log.len()).rev().find(|&i| self.log[i].step) {
+        // a shard whose lock a paused `clear` holds cannot be read (and cannot have changed): keep its keys
+        let held: BTreeSet<usize> = self.th.iter().flat_map(|t| t.held_shards.iter().copied()).collect();
+        let mut o = observe(&self.cache, self.nkeys, self.expiry, &held, self.shards);
+        for (k, v) in &self.last_obs { if held.contains(&(*k as usize % self.shards.max(1))) { o.1.insert(*k, *v); } }
+        let quiescent = self.th.iter().all(|t| t.status == Status::Finished || (t.status == Status::AtPoint && t.pending_acq.is_none() && (t.last == "op" || t.last == "start")));
         self.last_obs = o.1.clone();
-        let l = self.log.last_mut().unwrap();
+        let l = &mut self.log[li];
         l.obs = Some(o);
         l.quiescent = quiescent;
       }
-      // a decision that only re-failed a compute left the cache state unchanged: other threads waiting to
-      // retry a compute stay stale
-      let only_fail = self.log.len() > logged_from && self.log[logged_from..].iter().all(|l| { let w: Vec<&str> = l.text.split_whitespace().collect(); w.get(1) == Some(&"call") || (w.get(1) == Some(&"compute") && w.get(3) == Some(&"fail") && w.len() == 4) });
-      if !only_fail { for (i, t) in self.th.iter_mut().enumerate() { if i != p { t.stale = false; } } }
+      // a decision that only logged events and/or re-failed a compute left the cache state unchanged: other
+      // threads waiting to retry a compute stay stale (a decision without any line that ended at a step point
+      // is a `release`: it does change the state)
+      let neutral_lines = self.log[logged_from..].iter().all(|l| { let w: Vec<&str> = l.text.split_whitespace().collect(); !l.step || (w.get(1) == Some(&"compute") && w.get(3) == Some(&"fail") && w.len() == 4) });
+      let neutral = neutral_lines && (self.ended_at_lock_yield || self.log.len() > logged_from);
+      if !neutral { for (i, t) in self.th.iter_mut().enumerate() { if i != p { t.stale = false; } } }
     }
     if let Some(t) = self.panicked { self.stop(format!("panic:{t}")); return; }
     let at_point: Vec<usize> = self.th.iter().enumerate().filter(|(_, t)| t.status == Status::AtPoint).map(|(i, _)| i).collect();
-    let unblocked: Vec<usize> = at_point.iter().copied().filter(|&i| {
-      let t = &self.th[i];
-      !(t.last == "maint:before_lock" && matches!(self.mlock.get(t.maint_sh), Some(Some(h)) if *h != i))
-    }).collect();
+    let unblocked: Vec<usize> = at_point.iter().copied().filter(|&i| !self.blocked(i)).collect();
     if unblocked.is_empty() {
       if at_point.is_empty() { self.done = true; } else { self.stop(format!("deadlock:{}", at_point.iter().map(|x| x.to_string()).collect::<Vec<_>>().join(","))); }
       return;
@@ -253,6 +296,7 @@ impl Inner {
       ("", _) => return None,
       ("op-start", "op") => match op0.as_str() {
         "get" | "peek" | "fetch" | "hold" => { let (a, b) = opt(ret); format!("read => {a} ret={b}") }
+        "advance" => format!("advance {key} => -"),
         "remove" => match ret { Some(Ret::Opt(None)) => "rmMap => none ret=none".to_string(), _ => unknown() },
         "compute" | "trycompute" => cmp(ret),
         "orinsert" => match ret { Some(Ret::Val(v)) => format!("oiMap => occ {v} ret={v}"), _ => unknown() },
@@ -303,9 +347,10 @@ impl Inner {
       ("maint:before_victim_lock", _) => if self.plog_since().iter().any(|e| e.starts_with("rm:")) { "victim => removed".into() } else { "victim => absent".into() },
       ("maint:before_evict_cost_sub", _) => "evSub => -".into(),
       ("maint:before_evict_notify", _) => "evNote => -".into(),
-      ("maint:before_ttl", "cap:before_cost_load") => "ttlAdvance => []".into(),
+      ("maint:before_ttl", "maint:before_tti") => "ttlAdvance => []".into(),
       ("maint:before_ttl", "ttl:before_map_write") => "ttlAdvance => nonempty".into(),
-      ("ttl:before_map_write", "cap:before_cost_load") => "ttlMap => -".into(),
+      ("ttl:before_map_write", "maint:before_tti") => format!("ttlMap => {}", list(&self.removed_keys_since())),
+      ("maint:before_tti", "cap:before_cost_load") => format!("ttiMap => {}", list(&self.removed_keys_since())),
       ("cap:before_cost_load", "cap:before_policy_evict") => "capLoad => over".into(),
       ("cap:before_cost_load", "maint:before_unlock") => "capLoad => under".into(),
       ("cap:before_policy_evict", _) => {
@@ -343,6 +388,8 @@ impl Sched {
     g.th[me].last = label;
     g.th[me].stale = label == "compute:retry";
     g.th[me].status = if finished { Status::Finished } else { Status::AtPoint };
+    if label == "op" || g.th[me].op.first().map(|s| s.as_str()) != Some("clear") { g.th[me].held_shards.clear(); }
+    g.ended_at_lock_yield = false;
     if g.baton == Some(me) { g.baton = None; }
     if g.all_settled() { g.schedule(); self.wake(&g, Some(me)); }
     if finished { return; }
@@ -352,6 +399,35 @@ impl Sched {
       let sh = g.th[me].maint_sh;
       g.push(me, format!("call maint {sh} 16 1 => -"));
     }
+  }
+
+  /// Called (through `fibre::verif_lock_hook`) by a worker that is about to acquire the hybrid lock at `addr`.
+  /// shard<i> / maint<i>: yield point (not a step boundary); the `acq` line is logged when the worker goes on.
+  fn lock_event(&self, me: usize, addr: usize, kind: &'static str) {
+    let mut g = self.m.lock().unwrap();
+    if !g.active { return; }
+    let role = g.roles.get(&addr).cloned().unwrap_or_else(|| "other".to_string());
+    let (shard, maint) = (Inner::role_index(&role, "shard"), Inner::role_index(&role, "maint"));
+    if shard.is_some() || maint.is_some() {
+      g.th[me].pending_acq = Some((role.clone(), kind));
+      g.th[me].status = Status::AtPoint;
+      if g.th[me].op.first().map(|s| s.as_str()) != Some("clear") { g.th[me].held_shards.clear(); }
+      g.ended_at_lock_yield = true;
+      if g.baton == Some(me) { g.baton = None; }
+      if g.all_settled() { g.schedule(); self.wake(&g, Some(me)); }
+      while g.active && g.baton != Some(me) { g = self.cvs[me].wait(g).unwrap(); }
+      g.th[me].status = Status::Running;
+      g.th[me].pending_acq = None;
+      if !g.active { return; }
+      if let Some(sh) = shard { g.th[me].held_shards.push(sh); }
+      if let (Some(sh), "l") = (maint, kind) { if sh < g.mlock.len() { g.mlock[sh] = Some(me); } }
+    }
+    g.push(me, format!("acq {role} {kind}"));
+  }
+
+  fn clock_event(&self, me: usize) {
+    let mut g = self.m.lock().unwrap();
+    if g.active { g.push(me, "clock".to_string()); }
   }
 
   /// After `schedule`: wake whoever has to act next.
@@ -368,20 +444,24 @@ impl Sched {
     g.th[t].last = "op-start";
     if !g.active { return; }
     let line = match w[0] {
-      "get" | "peek" | "fetch" | "hold" => format!("call get {}", w[1]),
+      "get" | "fetch" | "hold" => format!("call get {}", w[1]),
+      "peek" => format!("call peek {}", w[1]),
       "insert" => format!("call insert {} {} {}", w[1], w[2], w[3]),
+      "insertttl" => format!("call insertttl {} {} {} {}", w[1], w[2], w[3], w[4]),
       "remove" => format!("call remove {}", w[1]),
       "compute" => format!("call compute {} 1000", w[1]),
       "trycompute" => format!("call trycompute {} 1000", w[1]),
       "orinsert" => format!("call orinsert {} {} {}", w[1], w[2], w[3]),
       "clear" => "call clear".to_string(),
-      _ => return, // maint: one call per shard, logged at "maint:before_lock"; release: silent
+      _ => return, // maint: one call per shard, logged at "maint:before_lock"; release: silent; advance: step line only
     };
     g.push(t, format!("{line} => -"));
   }
 }
 
 thread_local! {
+  /// set while the harness itself reads the cache (observation): its lock / clock events are not logged
+  static QUIET: std::cell::Cell<bool> = const { std::cell::Cell::new(false) };
   /// the case (scheduler) and thread index the current OS thread works for; cases run concurrently, the
   /// one process-global hook dispatches on this
   static CUR: std::cell::RefCell<Option<(Arc<Sched>, usize)>> = const { std::cell::RefCell::new(None) };
@@ -393,11 +473,30 @@ impl SchedHook for Hook {
     let c = CUR.with(|c| c.borrow().clone());
     if let Some((s, t)) = c { s.arrive(t, label, None, false); }
   }
+  fn clock(&self) {
+    if QUIET.with(|q| q.get()) { return; }
+    let c = CUR.with(|c| c.borrow().clone());
+    if let Some((s, t)) = c { s.clock_event(t); }
+  }
   fn on_spawn(&self) {}
   fn before_park(&self) {}
   fn after_park(&self) {}
   fn on_unpark(&self, _target: ThreadId) {}
 }
+
+fn install_hooks() {
+  verif_sched::install(Arc::new(Hook));
+  fibre::verif_lock_hook::install(Arc::new(|addr: usize, kind: &'static str| {
+    if QUIET.with(|q| q.get()) { return; }
+    let c = CUR.with(|c| c.borrow().clone());
+    if let Some((s, t)) = c { s.lock_event(t, addr, kind); }
+  }));
+  verif_clock::freeze_at(T0);
+}
+
+/// Cases that use the (process-global) virtual clock never overlap.
+static EXPIRY_LOCK: Mutex<()> = Mutex::new(());
+const T0: u64 = 1_000_000_000;
 
 /// Dropped when a worker's program is over: counts the exit; if the thread dies by a panic, marks it
 /// finished (so the scheduler does not wait for it).
@@ -437,11 +536,13 @@ fn pool_run(mut job: Job) -> std::sync::mpsc::Sender<Job> {
 enum Strategy { Random(u64), Explicit(Vec<usize>), Prefix(Vec<usize>) }
 
 #[derive(Clone, Debug)]
-struct Cfg { shards: usize, cap: Option<u64>, policy: String, coop: bool, nkeys: u64 }
+struct Cfg { shards: usize, cap: Option<u64>, policy: String, coop: bool, nkeys: u64, ttl: u64, tti: u64 }
 impl Cfg {
   fn header(&self, n: usize, strat: &str) -> String {
-    format!("threads={n} shards={} cap={} policy={} coop={} nkeys={} strategy={strat}", self.shards,
-      self.cap.map(|c| c.to_string()).unwrap_or_else(|| "inf".into()), self.policy, self.coop as u8, self.nkeys)
+    let pcap = self.cap.map(|c| (c + self.shards.max(1) as u64 - 1) / self.shards.max(1) as u64).unwrap_or(0);
+    let track = mk_policy(&self.policy, pcap).uses_access_events();
+    format!("threads={n} shards={} cap={} policy={} coop={} nkeys={} ttl={} tti={} track={} strategy={strat}", self.shards,
+      self.cap.map(|c| c.to_string()).unwrap_or_else(|| "inf".into()), self.policy, self.coop as u8, self.nkeys, self.ttl, self.tti, track as u8)
   }
   fn parse(h: &[String]) -> Cfg {
     Cfg {
@@ -450,6 +551,8 @@ impl Cfg {
       policy: kv(h, "policy").unwrap_or("lru").to_string(),
       coop: kv(h, "coop") == Some("1"),
       nkeys: kv(h, "nkeys").and_then(|s| s.parse().ok()).unwrap_or(4),
+      ttl: kv(h, "ttl").and_then(|s| s.parse().ok()).unwrap_or(0),
+      tti: kv(h, "tti").and_then(|s| s.parse().ok()).unwrap_or(0),
     }
   }
 }
@@ -457,12 +560,19 @@ impl Cfg {
 struct Outcome { transcript: String, choice_points: Vec<(usize, Vec<usize>)>, decisions: Vec<usize>, monitor_sigs: Vec<String> }
 
 const STEP_BUDGET: usize = 3000;
-const DFS_BATCH: usize = 8;
+const DFS_BATCH: usize = 16;
 
-fn observe(cache: &C, nkeys: u64) -> Obs {
+/// `current_cost` and the physical map. `expiry`: the caller's case owns the virtual clock; `peek` hides
+/// expired entries, so the clock is set to 0 (nothing is expired at 0) around the reads.
+fn observe(cache: &C, nkeys: u64, expiry: bool, skip_shards: &BTreeSet<usize>, shards: usize) -> Obs {
+  let was = QUIET.with(|q| q.replace(true));
+  let now = verif_clock::now_nanos();
+  if expiry { verif_clock::freeze_at(0); }
   let cur = cache.metrics().current_cost;
   let mut m = BTreeMap::new();
-  for k in 0..nkeys { if let Some(a) = cache.peek(&k) { m.insert(k, *a); } }
+  for k in 0..nkeys { if skip_shards.contains(&(k as usize % shards.max(1))) { continue; } if let Some(a) = cache.peek(&k) { m.insert(k, *a); } }
+  if expiry { verif_clock::freeze_at(now); }
+  QUIET.with(|q| q.set(was));
   (cur, m)
 }
 
@@ -472,6 +582,8 @@ fn show_obs(o: &Obs) -> String {
 }
 
 fn run_case(id: &str, cfg: &Cfg, programs: &[Vec<String>], strat: Strategy, strat_name: &str) -> Outcome {
+  let expiry = cfg.ttl > 0 || cfg.tti > 0 || programs.iter().flatten().any(|o| o.starts_with("advance") || o.starts_with("insertttl"));
+  let _clock_owner = if expiry { let g = EXPIRY_LOCK.lock().unwrap_or_else(|p| p.into_inner()); verif_clock::freeze_at(T0); Some(g) } else { None };
   let s_n = cfg.shards.max(1);
   let plog: Arc<Mutex<Vec<String>>> = Arc::new(Mutex::new(vec![]));
   let lis = Arc::new(Lis::default());
@@ -481,6 +593,9 @@ fn run_case(id: &str, cfg: &Cfg, programs: &[Vec<String>], strat: Strategy, stra
     .maintenance_chance(if cfg.coop { 1 } else { 1 << 31 })
     .maintenance_on_introspection(false);
   b = match cfg.cap { Some(c) => b.capacity(c), None => b.unbounded() };
+  if cfg.ttl > 0 { b = b.time_to_live(Duration::from_nanos(cfg.ttl)); }
+  if cfg.tti > 0 { b = b.time_to_idle(Duration::from_nanos(cfg.tti)); }
+  if cfg.ttl > 0 || cfg.tti > 0 { b = b.timer_wheel_size(4).timer_tick_duration(Duration::from_secs(1)); }
   b = b.eviction_listener(RecListener(lis.clone()));
   let (name, log, ctr) = (cfg.policy.clone(), plog.clone(), Arc::new(AtomicUsize::new(0)));
   b = b.cache_policy_factory(move || {
@@ -488,16 +603,17 @@ fn run_case(id: &str, cfg: &Cfg, programs: &[Vec<String>], strat: Strategy, stra
     Box::new(RecPolicy { inner: mk_policy(&name, pcap), shard, log: log.clone() })
   });
   let cache: Arc<C> = Arc::new(b.build().expect("build cache"));
+  let roles: HashMap<usize, String> = cache.verif_lock_addrs().into_iter().map(|(r, a)| (a, r)).collect();
 
   let n = programs.len();
   let sched = Arc::new(Sched {
     m: Mutex::new(Inner {
-      th: (0..n).map(|_| Th { status: Status::Running, last: "", op: vec![], maint_sh: 0, stale: false }).collect(),
+      th: (0..n).map(|_| Th { status: Status::Running, last: "", op: vec![], maint_sh: 0, stale: false, pending_acq: None, held_shards: vec![] }).collect(),
       baton: None, log: vec![], decisions: vec![], active: true, mlock: vec![None; s_n], plog: plog.clone(), plog_mark: 0,
       last_obs: BTreeMap::new(), shards: s_n, panicked: None, exited: 0,
       rng: match &strat { Strategy::Random(s) => Rng::new(*s), _ => Rng::new(0) },
       strat, choice_points: vec![], step_no: 0, log_mark: 0, picked: None, run_status: "ok".into(), done: false,
-      cache: cache.clone(), nkeys: cfg.nkeys,
+      cache: cache.clone(), nkeys: cfg.nkeys, roles, ended_at_lock_yield: false, expiry,
     }),
     cvs: (0..n).map(|_| Condvar::new()).collect(),
     main_cv: Condvar::new(),
@@ -523,6 +639,8 @@ fn run_case(id: &str, cfg: &Cfg, programs: &[Vec<String>], strat: Strategy, stra
           "hold" => { let a = cache.fetch(&k); let r = a.as_ref().map(|a| **a); slot = a; Ret::Opt(r) }
           "release" => { slot = None; Ret::Unit }
           "insert" => { cache.insert(k, v, c); Ret::Unit }
+          "insertttl" => { cache.insert_with_ttl(k, v, c, Duration::from_nanos(num(4))); Ret::Unit }
+          "advance" => { verif_clock::advance(k); Ret::Unit }
           "remove" => Ret::Opt(cache.remove(&k).map(|a| *a)),
           "compute" => Ret::Cmp(if cache.compute(&k, |x| *x += 1000) { "true" } else { "none" }),
           "trycompute" => Ret::Cmp(match cache.try_compute(&k, |x| *x += 1000) { Some(true) => "true", Some(false) => "false", None => "none" }),
@@ -559,7 +677,7 @@ fn run_case(id: &str, cfg: &Cfg, programs: &[Vec<String>], strat: Strategy, stra
     POOL.lock().unwrap().extend(pool_threads.drain(..));
   }
   drop(pool_threads);
-  let final_obs = if finished_ok { Some(observe(&cache, cfg.nkeys)) } else { None };
+  let final_obs = if finished_ok { Some(observe(&cache, cfg.nkeys, expiry, &BTreeSet::new(), s_n)) } else { None };
 
   let g = sched.m.lock().unwrap();
   // ---- transcript
@@ -570,7 +688,7 @@ fn run_case(id: &str, cfg: &Cfg, programs: &[Vec<String>], strat: Strategy, stra
     match &l.obs { Some(o) => tr.raw(&format!("{} {}", l.text, show_obs(o))), None => tr.raw(&l.text) }
   }
   tr.raw(&format!("X {}", g.run_status));
-  let mut sigs = monitors(id, programs, &g.log, final_obs.as_ref(), &lis);
+  let mut sigs = monitors(id, cfg, programs, &g.log, final_obs.as_ref(), &lis);
   sigs.sort(); sigs.dedup_by(|a, b| a.0 == b.0);
   for (s, m) in &sigs { tr.monitor(s, m); }
   Outcome { transcript: tr.finish(), choice_points: g.choice_points.clone(), decisions: g.decisions.clone(), monitor_sigs: sigs.into_iter().map(|x| x.0).collect() }
@@ -579,7 +697,7 @@ fn run_case(id: &str, cfg: &Cfg, programs: &[Vec<String>], strat: Strategy, stra
 // ------------------------------------------------------------------ monitors
 fn nats(s: &str) -> Vec<u64> { s.trim_matches(|c| c == '[' || c == ']').split(',').filter_map(|x| x.parse().ok()).collect() }
 
-fn monitors(id: &str, programs: &[Vec<String>], log: &[Line], final_obs: Option<&Obs>, lis: &Lis) -> Vec<(String, String)> {
+fn monitors(id: &str, cfg: &Cfg, programs: &[Vec<String>], log: &[Line], final_obs: Option<&Obs>, lis: &Lis) -> Vec<(String, String)> {
   let n = programs.len();
   let mut sigs: Vec<(String, String)> = vec![];
   let mut fire = |s: &str, m: String| sigs.push((s.to_string(), m));
@@ -588,7 +706,7 @@ fn monitors(id: &str, programs: &[Vec<String>], log: &[Line], final_obs: Option<
   let mut wcost: HashMap<u64, u64> = HashMap::new();
   for p in programs { for op in p {
     let w: Vec<&str> = op.split_whitespace().collect();
-    if w.first() == Some(&"insert") || w.first() == Some(&"orinsert") {
+    if w.first() == Some(&"insert") || w.first() == Some(&"orinsert") || w.first() == Some(&"insertttl") {
       let g = |i: usize| w.get(i).and_then(|x| x.parse::<u64>().ok()).unwrap_or(0);
       wkey.insert(g(2), g(1)); wcost.insert(g(2), g(3));
     }
@@ -611,6 +729,13 @@ fn monitors(id: &str, programs: &[Vec<String>], log: &[Line], final_obs: Option<
   let mut cap_removed_cost: Vec<u64> = vec![0; n];
   let mut inflight: Vec<bool> = vec![false; n];
   let (mut clear_overlap, mut cap_mismatch) = (false, false);
+  // expiry bookkeeping: virtual clock, per resident key (deadline, last access) of its binding; per thread the
+  // (deadline, last access) the binding its current insert creates will get (clock at the `call` line)
+  let (ttl, tti) = (cfg.ttl, cfg.tti);
+  let mut now: u64 = T0;
+  let mut meta: BTreeMap<u64, (u64, u64)> = BTreeMap::new();
+  let mut pend_meta: Vec<(u64, u64)> = vec![(0, 0); n];
+  let is_expired = |m: Option<&(u64, u64)>, now: u64| m.map_or(false, |(exp, la)| (*exp > 0 && now >= *exp) || (tti > 0 && now >= *la + tti));
   // wrapping sum over capacity passes of (cost actually removed - cost the policy reported): the drift they explain
   let mut cap_drift: u64 = 0;
 
@@ -632,7 +757,7 @@ fn monitors(id: &str, programs: &[Vec<String>], log: &[Line], final_obs: Option<
     let w: Vec<&str> = line.text.split_whitespace().collect();
     if w.len() < 2 { continue; }
     let t: usize = w[0].parse().unwrap_or(0);
-    if t >= n { continue; }
+    if t >= n || w[1] == "acq" || w[1] == "clock" { continue; }
     let arrow = w.iter().position(|x| *x == "=>").unwrap_or(w.len());
     let args: Vec<&str> = w[2.min(arrow)..arrow].to_vec();
     let res: Vec<&str> = w[(arrow + 1).min(w.len())..].iter().copied().filter(|x| !x.starts_with("ret=")).collect();
@@ -659,19 +784,35 @@ fn monitors(id: &str, programs: &[Vec<String>], log: &[Line], final_obs: Option<
         cur_op[t] = args.iter().map(|s| s.to_string()).collect();
         call_li[t] = li;
         match args.first() {
+          Some(&"insert") => { pend_meta[t] = (if ttl > 0 { now + ttl } else { 0 }, now); }
+          Some(&"insertttl") => { pend_meta[t] = (now + args.get(4).and_then(|x| x.parse::<u64>().ok()).unwrap_or(0), now); }
           Some(&"remove") => { rmclr.push((args.get(1).and_then(|x| x.parse().ok()), li, None)); open_rm.insert(t, rmclr.len() - 1); }
           Some(&"clear") => { rmclr.push((None, li, None)); open_rm.insert(t, rmclr.len() - 1); }
           _ => {}
         }
       }
+      "advance" => { now += args.first().and_then(|x| x.parse::<u64>().ok()).unwrap_or(0); }
       "read" => {
         let r: Option<u64> = if res.first() == Some(&"some") { res.get(1).and_then(|x| x.parse().ok()) } else { None };
-        if r != reg.get(&key).copied() {
+        let exp = is_expired(meta.get(&key), now);
+        // a miss on a resident but expired binding is what the API promises
+        if r != reg.get(&key).copied() && !(r.is_none() && exp) {
           fire("conc:read-returned-non-current-value", format!("thread {t} read of key {key} returned {r:?} while the key's register held {:?}", reg.get(&key)));
         }
-        if let Some(v) = r { read_checks(v, &mut fire); }
+        if let Some(v) = r {
+          read_checks(v, &mut fire);
+          if exp { fire("conc:expiry:expired-value-served", format!("thread {t} {} of key {key} returned {v} at clock {now} although its binding (deadline {}, last access {}, tti {tti}) had expired", cur_op[t].first().cloned().unwrap_or_default(), meta.get(&key).map_or(0, |m| m.0), meta.get(&key).map_or(0, |m| m.1))); }
+          // get / fetch refresh the idle time, peek does not
+          if tti > 0 && cur_op[t].first().map(|s| s.as_str()) == Some("get") { if let Some(m) = meta.get_mut(&key) { m.1 = now; } }
+        }
       }
-      "insMap" => { reg.insert(key, val); write_at.insert(val, li); ok_count.insert(key, 0); inflight[t] = true; }
+      "insMap" => { reg.insert(key, val); meta.insert(key, pend_meta[t]); write_at.insert(val, li); ok_count.insert(key, 0); inflight[t] = true; }
+      "ttlMap" | "ttiMap" => {
+        for k in res.first().map(|s| nats(s)).unwrap_or_default() {
+          if let Some(v) = last_obs.get(&k).or(reg.get(&k)) { removals.push((k, *v, 'E')); }
+          reg.remove(&k); meta.remove(&k); oi_open.remove(&k); note_sends += 1;
+        }
+      }
       "insAdd" | "rmSub" | "oiAdd" | "evSub" => { inflight[t] = false; }
       "rmMap" => {
         let r: Option<u64> = if res.first() == Some(&"some") { res.get(1).and_then(|x| x.parse().ok()) } else { None };
@@ -680,7 +821,7 @@ fn monitors(id: &str, programs: &[Vec<String>], log: &[Line], final_obs: Option<
         }
         if res.first() == Some(&"some") {
           if let Some(v) = r { removals.push((key, v, 'I')); }
-          reg.remove(&key); oi_open.remove(&key); inflight[t] = true;
+          reg.remove(&key); meta.remove(&key); oi_open.remove(&key); inflight[t] = true;
         }
       }
       "rmNote" => {
@@ -693,7 +834,10 @@ fn monitors(id: &str, programs: &[Vec<String>], log: &[Line], final_obs: Option<
       }
       "compute" => match res.first() {
         Some(&"ok") => match reg.get_mut(&key) {
-          Some(v) => { *v += 1000; *ok_count.entry(key).or_insert(0) += 1; }
+          Some(v) => {
+            *v += 1000; *ok_count.entry(key).or_insert(0) += 1;
+            if is_expired(meta.get(&key), now) { fire("conc:expiry:compute-on-expired-entry", format!("thread {t} compute({key}) updated the binding at clock {now} although it had expired")); }
+          }
           None => fire("conc:compute-on-non-current-binding", format!("thread {t} compute({key}) succeeded although the key's register was empty")),
         },
         Some(&"nf") => if reg.contains_key(&key) { fire("conc:compute-on-non-current-binding", format!("thread {t} compute({key}) reported not-found while the key's register held {:?}", reg.get(&key))); },
@@ -703,16 +847,17 @@ fn monitors(id: &str, programs: &[Vec<String>], log: &[Line], final_obs: Option<
         if res.first() == Some(&"ins") {
           if reg.contains_key(&key) { fire("conc:or_insert-inserted-over-live-entry", format!("thread {t} or_insert({key}) inserted {val} while the key's register held {:?}", reg.get(&key))); }
           if oi_open.contains(&key) { fire("conc:or_insert-inserted-twice-in-one-absent-period", format!("thread {t} or_insert({key}) inserted {val}: second or_insert insertion of the key with no removal in between")); }
-          oi_open.insert(key); reg.insert(key, val); write_at.insert(val, li); ok_count.insert(key, 0); inflight[t] = true;
+          oi_open.insert(key); reg.insert(key, val); meta.insert(key, (if ttl > 0 { now + ttl } else { 0 }, now)); write_at.insert(val, li); ok_count.insert(key, 0); inflight[t] = true;
         } else {
           let r: Option<u64> = res.get(1).and_then(|x| x.parse().ok());
+          if is_expired(meta.get(&key), now) { fire("conc:expiry:or_insert-returned-expired-value", format!("thread {t} or_insert({key}) returned {r:?} at clock {now} although that binding had expired")); }
           if r != reg.get(&key).copied() { fire("conc:read-returned-non-current-value", format!("thread {t} or_insert({key}) found {r:?} while the key's register held {:?}", reg.get(&key))); }
           if let Some(v) = r { read_checks(v, &mut fire); }
         }
       }
       "clear" => {
         if (0..n).any(|t2| t2 != t && inflight[t2]) { clear_overlap = true; }
-        reg.clear(); oi_open.clear();
+        reg.clear(); meta.clear(); oi_open.clear();
       }
       "admit" => { victims[t] = (if res.first() == Some(&"evict") { res.get(1).map(|s| nats(s)).unwrap_or_default() } else { vec![] }, 0); }
       "victim" => {
@@ -720,7 +865,7 @@ fn monitors(id: &str, programs: &[Vec<String>], log: &[Line], final_obs: Option<
         let vk = vs.get(*i).copied(); *i += 1;
         if res.first() == Some(&"removed") { if let Some(vk) = vk {
           if let Some(v) = last_obs.get(&vk).or(reg.get(&vk)) { removals.push((vk, *v, 'C')); }
-          reg.remove(&vk); oi_open.remove(&vk); inflight[t] = true;
+          reg.remove(&vk); meta.remove(&vk); oi_open.remove(&vk); inflight[t] = true;
         } }
       }
       "evNote" => { note_sends += 1; }
@@ -729,7 +874,7 @@ fn monitors(id: &str, programs: &[Vec<String>], log: &[Line], final_obs: Option<
         let mut c = 0u64;
         if let Some(o) = &line.obs {
           let gone: Vec<(u64, u64)> = last_obs.iter().filter(|(k, _)| !o.1.contains_key(k)).map(|(k, v)| (*k, *v)).collect();
-          for (k, v) in gone { removals.push((k, v, 'C')); reg.remove(&k); oi_open.remove(&k); note_sends += 1; c += cost_of(v); }
+          for (k, v) in gone { removals.push((k, v, 'C')); reg.remove(&k); meta.remove(&k); oi_open.remove(&k); note_sends += 1; c += cost_of(v); }
         }
         cap_removed_cost[t] = c; inflight[t] = true;
       }
@@ -772,19 +917,33 @@ fn monitors(id: &str, programs: &[Vec<String>], log: &[Line], final_obs: Option<
 
 // ------------------------------------------------------------------ generators
 fn gen_case(rng: &mut Rng) -> (Cfg, Vec<Vec<String>>) {
+  const S: u64 = 1_000_000_000;
   let n = *rng.weighted(&[(3u32, 2usize), (2, 3)]);
   let nkeys = rng.range(2, 4);
   let shards = *rng.pick(&[1usize, 2]);
   let cap = if rng.chance(1, 2) { None } else { Some(rng.range(3, 6)) };
   let policy = if cap.is_none() { "lru" } else { *rng.pick(&["lru", "fifo", "slru", "tinylfu", "sieve", "clock", "arc", "fifoadm", "fifoadm", "fifoadm"]) }.to_string();
   let coop = rng.chance(1, 2);
-  let maint_thread = if rng.chance(1, 4) { Some(n - 1) } else { None };
+  // ~25% of the cases use expiry: ttl and/or tti and/or per-insert ttl, the clock advanced by 1-2 `advance` ops
+  let expiry = rng.chance(1, 4);
+  let dur = |rng: &mut Rng| *rng.weighted(&[(3u32, S), (3, 2 * S), (1, 3 * S), (1, 3 * S / 2)]);
+  let (ttl, tti, ins_ttl) = if !expiry { (0, 0, false) } else { match rng.below(5) { 0 => (dur(rng), 0, false), 1 => (0, dur(rng), false), 2 => (dur(rng), dur(rng), rng.chance(1, 2)), 3 => (dur(rng), 0, true), _ => (0, rng.below(2) * dur(rng), true) } };
+  let clock_thread = if expiry && rng.chance(1, 3) { Some(n - 1) } else { None };
+  // (the TTL timer wheel advances one tick per maintenance pass of a shard: a timer of d seconds fires in the
+  // (d+1)-th pass after its insert, so expiry cases get a maintenance thread with several passes more often)
+  let maint_thread = if clock_thread.is_none() && rng.chance(1, if expiry { 2 } else { 4 }) { Some(n - 1) } else { None };
+  let adv = |rng: &mut Rng| format!("advance {}", *rng.weighted(&[(1u32, S / 2), (3, S), (3, 2 * S), (1, 3 * S)]));
   let mut next_v = 0u64;
   let mut ps = vec![];
   for t in 0..n {
     let mut p: Vec<String> = vec![];
     if maint_thread == Some(t) {
-      for _ in 0..rng.range(1, 2) { p.push("maint".into()); }
+      for _ in 0..(if expiry { rng.range(2, 3) } else { rng.range(1, 2) }) { p.push("maint".into()); }
+      ps.push(p);
+      continue;
+    }
+    if clock_thread == Some(t) {
+      for _ in 0..rng.range(1, 2) { p.push(adv(rng)); }
       ps.push(p);
       continue;
     }
@@ -793,9 +952,11 @@ fn gen_case(rng: &mut Rng) -> (Cfg, Vec<Vec<String>>) {
     for _ in 0..len {
       let k = rng.below(nkeys);
       if holding && rng.chance(1, 2) { p.push("release".into()); holding = false; continue; }
-      let op = *rng.weighted(&[(30u32, "insert"), (14, "remove"), (if holding { 0 } else { 12 }, "compute"), (12, "orinsert"), (10, "read"), (4, "trycompute"), (3, "clear"), (4, "maint"), (if holding { 0 } else { 2 }, "hold")]);
+      let e = expiry as u32;
+      let op = *rng.weighted(&[(30 - 6 * e, "insert"), (14 - 6 * e, "remove"), (if holding { 0 } else { 12 - 4 * e }, "compute"), (12 - 2 * e, "orinsert"), (10 + 8 * e, "read"), (4, "trycompute"), (3 - e, "clear"),
+        (4 + 5 * e, "maint"), (if holding { 0 } else { 2 - e }, "hold"), (if clock_thread.is_none() { 7 * e } else { 0 }, "advance")]);
       p.push(match op {
-        "insert" => { next_v += 1; format!("insert {k} {next_v} {}", rng.range(1, 3)) }
+        "insert" => { next_v += 1; let c = rng.range(1, 3); if ins_ttl && rng.chance(1, 2) { format!("insertttl {k} {next_v} {c} {}", dur(rng)) } else { format!("insert {k} {next_v} {c}") } }
         "orinsert" => { next_v += 1; format!("orinsert {k} {next_v} {}", rng.range(1, 3)) }
         "remove" => format!("remove {k}"),
         "compute" => format!("compute {k}"),
@@ -803,13 +964,21 @@ fn gen_case(rng: &mut Rng) -> (Cfg, Vec<Vec<String>>) {
         "read" => format!("{} {k}", *rng.pick(&["get", "peek", "fetch"])),
         "clear" => "clear".to_string(),
         "maint" => "maint".to_string(),
+        "advance" => adv(rng),
         _ => { holding = true; format!("hold {k}") }
       });
     }
     if holding { p.push("release".into()); }
     ps.push(p);
   }
-  (Cfg { shards, cap, policy, coop, nkeys }, ps)
+  if expiry && !ps.iter().flatten().any(|o| o.starts_with("advance")) {
+    let t = rng.below(n as u64) as usize;
+    let at = rng.below(ps[t].len() as u64 + 1) as usize;
+    // never between a hold and its release partner's compute rule: position is free, `advance` touches no entry
+    let a = adv(rng);
+    ps[t].insert(at, a);
+  }
+  (Cfg { shards, cap, policy, coop, nkeys, ttl, tti }, ps)
 }
 
 fn prog(s: &str) -> Vec<Vec<String>> {
@@ -817,8 +986,10 @@ fn prog(s: &str) -> Vec<Vec<String>> {
 }
 
 fn fixed_programs() -> Vec<(Cfg, Vec<Vec<String>>)> {
-  let c = |shards: usize, cap: Option<u64>, coop: bool, nkeys: u64| Cfg { shards, cap, policy: "lru".into(), coop, nkeys };
-  let fa = |shards: usize, cap: u64, nkeys: u64| Cfg { shards, cap: Some(cap), policy: "fifoadm".into(), coop: false, nkeys };
+  const S: u64 = 1_000_000_000;
+  let c = |shards: usize, cap: Option<u64>, coop: bool, nkeys: u64| Cfg { shards, cap, policy: "lru".into(), coop, nkeys, ttl: 0, tti: 0 };
+  let fa = |shards: usize, cap: u64, nkeys: u64| Cfg { shards, cap: Some(cap), policy: "fifoadm".into(), coop: false, nkeys, ttl: 0, tti: 0 };
+  let ex = |ttl: u64, tti: u64| Cfg { shards: 1, cap: None, policy: "lru".into(), coop: false, nkeys: 2, ttl, tti };
   vec![
     (c(1, None, false, 2), prog("insert 1 10 5 || insert 1 11 3")),
     (c(1, None, false, 2), prog("insert 1 10 2 ; remove 1 || clear")),
@@ -831,6 +1002,11 @@ fn fixed_programs() -> Vec<(Cfg, Vec<Vec<String>>)> {
     (c(1, None, false, 2), prog("insert 1 10 1 ; hold 1 ; release || compute 1")),
     (fa(1, 3, 2), prog("insert 0 10 2 ; insert 1 11 2 ; maint || remove 0")),
     (fa(1, 3, 2), prog("insert 0 10 2 ; insert 1 11 2 ; maint || insert 0 12 1")),
+    (c(1, None, false, 2), prog("orinsert 1 10 1 || orinsert 1 11 1")),
+    (ex(2 * S, 0), prog("insert 1 10 1 ; get 1 || advance 2000000000")),
+    (ex(0, 2 * S), prog("insert 1 10 1 ; peek 1 ; advance 1000000000 ; get 1 || advance 1000000000")),
+    (ex(2 * S, 0), prog("insert 1 10 1 || advance 2000000000 || orinsert 1 11 1 ; compute 1")),
+    (ex(S, 0), prog("insert 1 10 1 ; maint ; maint || advance 1000000000 ; get 1")),
   ]
 }
 
@@ -838,23 +1014,26 @@ fn main() {
   match parse_args() {
     Mode::Gen { seed, cases, tier, extra } => {
       let dfs_budget: usize = extra.iter().find(|e| e.0 == "dfs").and_then(|e| e.1.parse().ok()).unwrap_or(if tier == "thorough" { 20000 } else { 1500 });
-      let workers: usize = extra.iter().find(|e| e.0 == "workers").and_then(|e| e.1.parse().ok()).unwrap_or(12).max(1);
+      let workers: usize = extra.iter().find(|e| e.0 == "workers").and_then(|e| e.1.parse().ok()).unwrap_or(32).max(1);
       // `--only <i>`: run just DFS program i (diagnostics / witness extraction)
       let only: Option<usize> = extra.iter().find(|e| e.0 == "only").and_then(|e| e.1.parse().ok());
-      verif_sched::install(Arc::new(Hook));
-      // 1. random programs x random schedules (independent cases, `workers` at a time)
-      let outs = par_map(cases, workers, |i| {
-        let mut rng = Rng::new(seed.wrapping_mul(7919).wrapping_add(i as u64));
-        let (cfg, ps) = gen_case(&mut rng);
-        let s = rng.next();
-        run_case(&format!("r{seed}.{i}"), &cfg, &ps, Strategy::Random(s), "random").transcript
-      });
-      for o in outs { print!("{o}"); }
-      // 2. exhaustive schedules (stateless DFS) for fixed tiny programs; the top DFS_BATCH prefixes of the
-      // stack are run concurrently, their alternatives are pushed in batch order (deterministic)
+      install_hooks();
+      // job 0: random programs x random schedules (independent cases, `workers` at a time);
+      // job 1+i: exhaustive schedules (stateless DFS) of fixed tiny program i; the top DFS_BATCH prefixes of the
+      // stack are run concurrently, their alternatives are pushed in batch order (deterministic).
+      // All jobs run concurrently; the output is in job order.
       let fixed = fixed_programs();
-      for (pi, (cfg, ps)) in fixed.iter().enumerate() {
-        if only.map_or(false, |o| o != pi) { continue; }
+      let random_job = || -> String {
+        par_map(cases, workers, |i| {
+          let mut rng = Rng::new(seed.wrapping_mul(7919).wrapping_add(i as u64));
+          let (cfg, ps) = gen_case(&mut rng);
+          let s = rng.next();
+          run_case(&format!("r{seed}.{i}"), &cfg, &ps, Strategy::Random(s), "random").transcript
+        }).concat()
+      };
+      let dfs_job = |pi: usize| -> String {
+        let (cfg, ps) = &fixed[pi];
+        if only.map_or(false, |o| o != pi) { return String::new(); }
         let mut out = String::new();
         let budget = dfs_budget / fixed.len();
         let mut stack: Vec<Vec<usize>> = vec![vec![]];
@@ -864,7 +1043,7 @@ fn main() {
           let take = DFS_BATCH.min(stack.len()).min(budget - runs);
           let batch: Vec<Vec<usize>> = (0..take).map(|_| stack.pop().unwrap()).collect();
           let results: Vec<Mutex<Option<Outcome>>> = (0..take).map(|_| Mutex::new(None)).collect();
-          let _ = par_map(take, workers, |j| {
+          let _ = par_map(take, (workers / 4).max(1), |j| {
             let o = run_case(&format!("d{pi}.{}", runs + j), cfg, ps, Strategy::Prefix(batch[j].clone()), "dfs");
             *results[j].lock().unwrap() = Some(o);
             String::new()
@@ -886,11 +1065,13 @@ fn main() {
         }
         let complete = stack.is_empty();
         out.push_str(&format!("# dfs program {pi}: {runs} schedules, complete={complete}{}\n", fired.iter().map(|(s, c)| format!(" {s}x{c}")).collect::<String>()));
-        print!("{out}");
-      }
+        out
+      };
+      let outs = par_map(fixed.len() + 1, fixed.len() + 1, |j| if j == 0 { random_job() } else { dfs_job(j - 1) });
+      for o in outs { print!("{o}"); }
     }
     Mode::Run { file } => {
-      verif_sched::install(Arc::new(Hook));
+      install_hooks();
       let text = std::fs::read_to_string(&file).expect("read");
       type Cur = (String, Vec<String>, BTreeMap<usize, Vec<String>>, Vec<usize>);
       let mut cur: Option<Cur> = None;
